@@ -137,6 +137,22 @@ async fn run_uni<const INSTR: usize, const MS: usize>(variant: &str, timeout: bo
 ///   `expire`     : a bounded `close(5 ms)` that expires (answers false), followed by an unbounded `close()`
 ///   `cancel`     : `cancel_all_streams()` on the channel, followed by an unbounded `close()`
 ///   `concurrent` : two unbounded `close()` calls, the second issued while the first is waiting
+/// The `accepted v` line is written by the producer's thread after `send` returned; on a multi-thread runtime a consumer may
+/// already have logged `yielded v` by then.  The acceptance itself happened before the yield (the event was in the queue): move the
+/// line to where it belongs.
+fn fix_accept_order(trace: &mut Vec<String>) {
+    let mut i = 0;
+    while i < trace.len() {
+        if let Some((_, v)) = trace[i].rsplit_once("yielded ") {
+            let acc_suffix = format!("accepted {v}");
+            if let Some(j) = trace.iter().position(|l| l.ends_with(&acc_suffix)) {
+                if j > i { let l = trace.remove(j); trace.insert(i, l); i += 1; }
+            }
+        }
+        i += 1;
+    }
+}
+
 /// every unbounded `close()` may only return (true) after all accepted events were processed
 async fn run_reclose(mode: &str, fallible: bool, n: u32) -> Vec<String> {
     let log = Arc::new(Mutex::new(Vec::<String>::new()));
@@ -386,6 +402,8 @@ fn main() {
                 "arc_crossbeam" => mclose_arc_crossbeam(nl, ne, delays.clone(), 1, remove).await, "ogre_atomic" => mclose_ogre_atomic(nl, ne, delays.clone(), 1, remove).await,
                 _ => mclose_ogre_fullsync(nl, ne, delays.clone(), 1, remove).await } });
             drop(rt);
+            let mut logs = logs;
+            for t in logs.iter_mut() { fix_accept_order(t); }
             for (l, trace) in logs.iter().enumerate() {
                 let mut viol: Vec<(String, String)> = vec![];
                 let closed_at = trace.iter().position(|x| x == "call 0 closereturned").unwrap_or(trace.len());
@@ -420,7 +438,8 @@ fn main() {
             let fallible = rng.chance(1, 2);
             let n = rng.range(1, 6) as u32;
             let rt = runtime(multi);
-            let trace = rt.block_on(run_reclose(mode, fallible, n));
+            let mut trace = rt.block_on(run_reclose(mode, fallible, n));
+            fix_accept_order(&mut trace);
             drop(rt);
             let mut viol: Vec<(String, String)> = vec![];
             for (p, l) in trace.iter().enumerate() {
@@ -554,6 +573,7 @@ fn main() {
             if o.callbacks != 1 { viol.push(("close_callback_count".into(), format!("{variant}: the close callback ran {} times", o.callbacks))); }
         } else {
             trace = LOG.lock().unwrap().clone();
+            fix_accept_order(&mut trace);
             // oracle C06: when close() returned, every accepted event had been processed
             let closed_at = trace.iter().position(|l| l == "call 0 closereturned").unwrap_or(trace.len());
             let futures = matches!(variant, "futfallible" | "fut");
